@@ -45,6 +45,24 @@ func jobsFor(prop, tier string) []Job {
 				mk("c10-2x2-recover", params("T", 2, "E", 2, "RECOVER", 1)),
 			)
 		}
+	case "C13":
+		mk := func(name, fn string, p map[string]int, sched int) Job {
+			return Job{Name: name, Pkg: "pkg/watermark", Fn: fn, Inits: true, Samples: 4, Params: p, Sched: sched > 0, MaxDev: sched,
+				Bounds:  map[string]any{"marks": p["K"], "indices": "symbolic 64-bit", "kinds": "Begin/Done symbolic; WaitForMark with a cancellable context in the Wait harness", "preemption_bound": sched, "params": p},
+				Assumes: []string{"sequence precondition: apart from an optional leading Done (recovery idiom), every Done(i) has an outstanding Begin(i) when it is consumed", "Go memory model for channels, select, atomic.Uint64, WaitGroup as modelled by the cooperative runtime"},
+				Outside: []string{"more marks than K (except the concrete overflow scenario)", "Done-before-Begin sequences other than the leading recovery Done", "starvation/timing"}}
+		}
+		js = []Job{
+			mk("c13-k3", "VH_C13", params("K", 3), 0),
+			mk("c13-k3-batch", "VH_C13", params("K", 3, "BATCH", 1), 0),
+			mk("c13-wait-k2", "VH_C13_Wait", params("K", 2), 0),
+			mk("c13-wait-k2-sched1", "VH_C13_Wait", params("K", 2), 1),
+			mk("c13-overflow", "VH_C13_Overflow", params(), 0),
+		}
+		if thorough {
+			js = append(js, mk("c13-k4", "VH_C13", params("K", 4), 0), mk("c13-k5", "VH_C13", params("K", 5), 0), mk("c13-k4-batch", "VH_C13", params("K", 4, "BATCH", 1), 0),
+				mk("c13-k3-sched2", "VH_C13", params("K", 3), 2), mk("c13-wait-k3-sched2", "VH_C13_Wait", params("K", 3), 2))
+		}
 	case "C16":
 		mk := func(name string, p map[string]int) Job {
 			return Job{Name: name, Pkg: "pkg/filter", Fn: "VH_C16", Inits: true, SymIndex: true, Samples: 3, Params: p,
